@@ -404,6 +404,14 @@ func (cd *CloneDetector) extractFragmentsRecursiveWithSource(node *parser.Node, 
 	for _, orelseNode := range node.Orelse {
 		cd.extractFragmentsRecursiveWithSource(orelseNode, filePath, sourceCode, fragments)
 	}
+
+	for _, handlerNode := range node.Handlers {
+		cd.extractFragmentsRecursiveWithSource(handlerNode, filePath, sourceCode, fragments)
+	}
+
+	for _, finalbodyNode := range node.Finalbody {
+		cd.extractFragmentsRecursiveWithSource(finalbodyNode, filePath, sourceCode, fragments)
+	}
 }
 
 // extractSourceContent extracts source code content for a given location
@@ -486,6 +494,14 @@ func (cd *CloneDetector) extractFragmentsRecursive(node *parser.Node, filePath s
 
 	for _, orelseNode := range node.Orelse {
 		cd.extractFragmentsRecursive(orelseNode, filePath, fragments)
+	}
+
+	for _, handlerNode := range node.Handlers {
+		cd.extractFragmentsRecursive(handlerNode, filePath, fragments)
+	}
+
+	for _, finalbodyNode := range node.Finalbody {
+		cd.extractFragmentsRecursive(finalbodyNode, filePath, fragments)
 	}
 }
 
